@@ -2,7 +2,7 @@ From Coq Require Import Extraction ExtrOcamlBasic.
 From PP Require Import Gen.Src_queues Queues.UsqDefs Queues.PcqDefs Queues.RingDefs.
 Extraction "model.ml" Z.of_N Z.to_N Z.of_nat Z.to_nat N.of_nat N.to_nat N.add N.mul Z.opp
   py_step py_pending
-  usq_page_size usq_valid_init pcq_empty_init pcq_used_init ring_blocks ring_block_size ring_output_init ring_trash_init
+  usq_page_size usq_valid_init pcq_empty_init pcq_used_init ring_blocks ring_block_size ring_put_u64 ring_output_init ring_trash_init
   usq_init usq_step usq_tag usq_finished
   pcq_init pcq_step pcq_tag pcq_finished
   ring_init ring_step ring_tag ring_finished ring_started.
